@@ -18,7 +18,7 @@ macro_rules! h {
         #[kani::stub(alloc::fmt::format, crate::stubs::format_stub)]
         pub fn $name() {
             $body;
-            kani::cover!(true, "harness end reached");
+            crate::vcover!(true, "harness end reached");
         }
     };
 }
@@ -60,7 +60,7 @@ pub fn c02_box_len7() {
         assert!(a[8 + i] == p[i] && b[8 + i] == p[i]);
         i += 1;
     }
-    kani::cover!(true, "reached");
+    crate::vcover!(true, "reached");
 }
 //@ prop=C02 tier=thorough cost=30 fns="muxer::mp4::build_box,fragmented::build_box" bound="all payloads of 16 bytes, any type" unwind=19
 #[kani::proof]
@@ -77,7 +77,7 @@ pub fn c02_box_len16() {
         assert!(a[8 + i] == p[i] && b[8 + i] == p[i]);
         i += 1;
     }
-    kani::cover!(true, "reached");
+    crate::vcover!(true, "reached");
 }
 
 // ---- sample table containers ---------------------------------------------------------------
